@@ -549,23 +549,113 @@ def build(meta):
         if fam == "lik":
             model = make_model(meta["model"])
             val = gauss_value(meta)
+            nm = meta.get("name", "y")
+            style = meta.get("lstyle", "to_likelihood")
             if meta.get("lognormal"):
-                D = Lognormal(model, val, name=meta.get("name", "y"))
+                D = Lognormal(model, val, name=nm)
+            elif style == "cond-param":
+                # the covariance-type parameter declared through a callable of a hyper-parameter, fixed by conditioning
+                D = Gaussian(mean=model, name=nm, **{meta["form"]: (lambda s_, v=val: s_ * v)})(s_=1.0)
             else:
-                D = Gaussian(mean=model, name=meta.get("name", "y"), **{meta["form"]: val})
+                D = Gaussian(mean=model, name=nm, **{meta["form"]: val})
+            if style == "call-name" and not meta.get("lognormal"):
+                return D(**{nm: fa(meta["data"])}), meta["model"]["n"]
             return D.to_likelihood(fa(meta["data"])), meta["model"]["n"]
         if fam in ("post", "mlp"):
-            parts = [build(dict(p, name="y%d" % i))[0] for i, p in enumerate(meta["parts"])]
-            prior = parts[-1]
-            prior.name = "x"
-            if fam == "post":
-                return Posterior(parts[0], prior), meta["n"]
-            return MultipleLikelihoodPosterior(*parts), meta["n"]
+            return build_sum(meta)[0], meta["n"]
+        if fam in ("ulik", "udist", "eval"):
+            return build_factor(meta), meta["n"]
         if fam == "sep":
             return build_sep(meta), meta["n"]
         if fam == "lognormal-full":
             return Lognormal(fa(meta["mean"]), um(meta["cov"])), meta["n"]
     raise ValueError(fam)
+
+
+def user_funcs(meta):
+    """user-supplied log-density -w/deg sum (x - c)^deg and its exact gradient -w (x - c)^(deg-1) (fresh closures)"""
+    c = fa(meta["c"])
+    w = float(F(meta["w"]))
+    deg = meta["deg"]
+    if deg == 1:
+        # linear log-density; the user's gradient function hands out its own stored array (the same object on every call):
+        # an implementation that accumulates in place into what a factor returned corrupts it (aliasing)
+        g0 = -w * c
+        return (lambda x: float(np.dot(g0, np.asarray(x, dtype=float)))), ((lambda x: g0) if meta.get("grad", True) else None)
+    logd = lambda x: -(w / deg) * float(np.sum((np.asarray(x, dtype=float) - c) ** deg))
+    grad = (lambda x: -w * (np.asarray(x, dtype=float) - c) ** (deg - 1)) if meta.get("grad", True) else None
+    return logd, grad
+
+
+def build_factor(meta):
+    from cuqi.likelihood import UserDefinedLikelihood
+    from cuqi.distribution import UserDefinedDistribution
+    from cuqi.density import EvaluatedDensity
+    from cuqi.geometry import Continuous1D, _DefaultGeometry1D
+    fam = meta["fam"]
+    if fam == "eval":
+        return EvaluatedDensity(float(F(meta["value"])), name=meta.get("name", "e"))
+    logd, grad = user_funcs(meta)
+    if fam == "ulik":
+        g = {"cont1d": Continuous1D(meta["n"]), "default1d": _DefaultGeometry1D(meta["n"]), "none": None}[meta.get("geom", "none")]
+        return UserDefinedLikelihood(dim=meta["n"], logpdf_func=logd, gradient_func=grad, geometry=g, name=meta.get("name", "u"))
+    return UserDefinedDistribution(dim=meta["n"], logpdf_func=logd, gradient_func=grad, name="x")
+
+
+def build_lik_dist(meta):
+    """the data distribution and the data of a regular likelihood factor"""
+    from cuqi.distribution import Gaussian, Lognormal
+    model = make_model(meta["model"])
+    val = gauss_value(meta)
+    if meta.get("lognormal"):
+        D = Lognormal(model, val, name=meta.get("name", "y"))
+    else:
+        D = Gaussian(mean=model, name=meta.get("name", "y"), **{meta["form"]: val})
+    return D, fa(meta["data"])
+
+
+def build_sum(meta):
+    """(posterior object, independently built factor objects in the order of meta['parts']).
+    style 'direct': Posterior(lik, prior) / MultipleLikelihoodPosterior(*factors);
+    'joint': JointDistribution(prior, data distributions...)(all data at once); 'stepwise': conditioned one by one;
+    meta['const']: an extra independent observed variable z, whose evaluated density is folded / kept as a factor."""
+    from cuqi.distribution import Posterior, MultipleLikelihoodPosterior, JointDistribution, Gaussian
+    named = [dict(p, name="y%d" % i) for i, p in enumerate(meta["parts"])]
+    fdp = set(meta.get("fd_parts") or [])
+
+    def mk(i):
+        o = build(named[i])[0]
+        if i in fdp:
+            o.enable_FD()          # a factor with its own finite-difference switch on, inside a posterior
+        return o
+    comps = [mk(i) for i in range(len(named))]
+    comps[-1].name = "x"
+    style = meta.get("style", "direct")
+    if style == "direct":
+        parts = [mk(i) for i in range(len(named))]
+        parts[-1].name = "x"
+        order = meta.get("order") or list(range(len(parts)))
+        parts = [parts[i] for i in order]
+        if meta["fam"] == "post":
+            return Posterior(parts[0], parts[-1]), comps
+        return MultipleLikelihoodPosterior(*parts), comps
+    prior = build(named[-1])[0]
+    prior.name = "x"
+    dd = [build_lik_dist(p) for p in named[:-1]]
+    dists = [prior] + [D for D, _ in dd]
+    data = {D.name: dat for D, dat in dd}
+    if meta.get("const"):
+        z = Gaussian(np.zeros(2), 1.0, name="z")
+        dists.append(z)
+        data["z"] = fa(meta["const"])
+    J = JointDistribution(*dists)
+    if style == "joint":
+        P = J(**data)
+    else:
+        P = J
+        for k in (meta.get("cond_order") or list(data.keys())):
+            P = P(**{k: data[k]})
+    return P, comps
 
 
 def gauss_value(meta):
@@ -665,10 +755,12 @@ def run(ctx):
     cases += gen_sum(ctx, st)
     cases += gen_fd(ctx, st)
     cases += gen_sep(ctx, st)
+    cases += gen_oos(ctx, st)
     cases += gen_cmrf(ctx, st)
     cases += gen_lognormal_full(ctx, st)
     cases += gen_dispatch(ctx, st)
     cases += gen_gallery(ctx, st)
+    cases += gen_large(ctx, st)
     return Result(cases=cases, rule=RULE,
                   extra={"repair_state": {s: ("repaired" if v else "defect present") for s, v in st.items()}},
                   assumptions=[
@@ -756,9 +848,10 @@ def gen_gmrf(ctx, st):
     for bc in ("zero", "periodic", "neumann"):
         for order in (0, 1, 2):
             for pd in (1, 2):
-                for r in range(ctx.n(1, 4) if pd == 2 else ctx.n(2, 6)):
+                for r in range(ctx.n(1, 4) if pd == 2 else ctx.n(3, 7)):
                     if pd == 1:
-                        n = rng.randint(4, 7)
+                        # r == 0: fewer nodes than the stencil is wide (boundary patches overlap / empty operator)
+                        n = rng.choice([2, 3]) if r == 0 else rng.randint(4, 7)
                         N = n
                         geo2 = None
                     else:
@@ -838,7 +931,9 @@ def gen_lik(ctx, st):
                     continue
                 d = rand_mapped(rng) if dom == "mapped+grad" else dom
                 ms = rand_model(rng, kind, d)
-                out.append(case_lik(lik_meta(rng, ms, form, ptype), st))
+                lm = lik_meta(rng, ms, form, ptype)
+                lm["lstyle"] = ["to_likelihood", "call-name", "cond-param"][k % 3 if not ctx.thorough else (k // 3) % 3]
+                out.append(case_lik(lm, st))
     # Lognormal data distribution (always a covariance)
     for kind in MODEL_KINDS:
         for dom in doms_ok:
@@ -946,24 +1041,120 @@ def gen_sum(ctx, st):
         meta = {"fam": fam, "parts": parts + [prior], "n": n, "x": pv(rvec(rng, n, -2, 2)), "x1": pv(rvec(rng, n, -2, 2)),
                 "cellname": "%s/%s-prior/%d-likelihoods" % (fam, prior.get("sfam", prior["fam"]), nl)}
         out.append(case_sum(meta, st))
+    out += gen_sum_factors(ctx, st)
+    return out
+
+
+# factor kinds: R regular Likelihood, U UserDefinedLikelihood with a gradient function, N one without, E EvaluatedDensity;
+# priors: g Gaussian, m GMRF, c Cauchy, u UserDefinedDistribution with gradient, n one without
+SUM_LATTICE = [
+    # (family, likelihood factors, prior, style, geometry of user likelihoods)
+    ("post", "U", "g", "direct", "cont1d"), ("post", "U", "g", "direct", "default1d"), ("post", "U", "g", "direct", "none"),
+    ("post", "U", "u", "direct", "cont1d"), ("post", "N", "g", "direct", "cont1d"), ("post", "R", "u", "direct", None),
+    ("post", "R", "n", "direct", None), ("post", "R", "g", "joint", None), ("post", "R", "g", "joint+const", None),
+    ("post", "R", "m", "stepwise+const", None),
+    ("mlp", "RU", "g", "direct", "none"), ("mlp", "UR", "g", "direct", "cont1d"), ("mlp", "RUU", "c", "direct", "none"),
+    ("mlp", "RRU", "m", "direct", "default1d"), ("mlp", "URU", "u", "direct", "none"), ("mlp", "RU", "u", "direct", "none"),
+    ("mlp", "RUN", "g", "direct", "none"), ("mlp", "RN", "g", "direct", "none"), ("mlp", "RU", "n", "direct", "none"),
+    ("mlp", "RE", "g", "direct", None), ("mlp", "RUE", "g", "direct", "none"), ("mlp", "RURU", "g", "direct", "none"),
+    ("mlp", "RRRR", "c", "direct", None), ("mlp", "UUUR", "m", "direct", "cont1d"), ("mlp", "RR", "g", "joint", None),
+    ("mlp", "RRR", "u", "joint", None), ("mlp", "RR", "m", "stepwise", None), ("mlp", "RR", "g", "joint+const", None),
+    ("mlp", "RRR", "g", "stepwise+const", None),
+    # a factor with its own FD switch on (prior without analytic gradient / a likelihood), inside the posterior
+    ("post", "R", "n", "direct", None, "fd-prior"), ("mlp", "RR", "n", "direct", None, "fd-prior"),
+    ("post", "R", "g", "direct", None, "fd-lik"), ("mlp", "RU", "g", "direct", "none", "fd-lik"),
+]
+
+
+def rand_user_factor(rng, fam, n, grad=True, geom="none"):
+    return {"fam": fam, "n": n, "c": pv(rvec(rng, n, -2, 2)), "w": P_(rpos(rng)), "deg": rng.choice([1, 2, 4]), "grad": grad, "geom": geom}
+
+
+def rand_prior(rng, kind, n):
+    if kind == "g":
+        form, ptype = rng.choice([("cov", "matrix"), ("prec", "vector"), ("sqrtprec", "scalar"), ("sqrtcov", "vector")])
+        val, _, _ = gauss_param(rng, form, ptype, n)
+        raw = (P_(Fraction(val)) if ptype == "scalar" else pv([Fraction(v) for v in val]) if ptype == "vector" else
+               pm([[Fraction(v) for v in r] for r in val.tolist()]))
+        return {"fam": "gauss", "form": form, "ptype": ptype, "param": raw, "n": n, "mean": rand_mean(rng, n)}
+    if kind == "m":
+        bc = rng.choice(["zero", "neumann", "periodic"])
+        return {"fam": "gmrf", "bc": bc, "order": 1 if bc == "neumann" else rng.choice([1, 2]), "pd": 1, "n": n, "N": n, "geo2": None,
+                "mean": rand_mean(rng, n), "prec": P_(rpos(rng))}
+    if kind == "c":
+        return {"fam": "sep", "sfam": "Cauchy", "n": n, "pars": [["v", pv(rvec(rng, n, nonzero=True))], ["s", P_(rpos(rng))], ["s", P_(0)]], "geom_n": True}
+    return rand_user_factor(rng, "udist", n, grad=(kind == "u"))
+
+
+def gen_sum_factors(ctx, st):
+    rng = ctx.rng
+    out = []
+    for entry in SUM_LATTICE:
+        (fam, liks, pk, style, ugeom), fdwhich = entry[:5], (entry[5] if len(entry) > 5 else None)
+        for r in range(ctx.n(2, 8)):
+            n = rng.randint(2, 3)
+            parts = []
+            for ch in liks:
+                if ch == "R":
+                    kind = rng.choice(MODEL_KINDS)
+                    form, ptype = rng.choice([("cov", "scalar"), ("cov", "vector"), ("cov", "matrix"), ("prec", "matrix"), ("sqrtprec", "vector")])
+                    parts.append(lik_meta(rng, rand_model(rng, kind, ("default",), n=n), form, ptype, lognormal=(rng.random() < 0.15)))
+                elif ch in "UN":
+                    parts.append(rand_user_factor(rng, "ulik", n, grad=(ch == "U"), geom=ugeom or "none"))
+                else:
+                    parts.append({"fam": "eval", "n": n, "value": P_(rdy(rng, -3, 3))})
+            parts.append(rand_prior(rng, pk, n))
+            meta = {"fam": fam, "parts": parts, "n": n, "x": pv(rvec(rng, n, -2, 2)), "x1": pv(rvec(rng, n, -2, 2)),
+                    "style": style.split("+")[0], "cellname": "%s/factors:%s/prior:%s/%s%s" % (fam, liks, pk, style, "/ugeom:" + ugeom if ugeom else "")}
+            if style.endswith("+const"):
+                meta["const"] = pv(rvec(rng, 2, -1, 1))
+            if fdwhich:
+                meta["fd_parts"] = [len(parts) - 1] if fdwhich == "fd-prior" else [0]
+                meta["cellname"] += "/" + fdwhich
+            if meta["style"] == "direct" and fam == "mlp" and r % 2 == 1:
+                order = list(range(len(parts)))
+                rng.shuffle(order)               # the prior need not come last among the constructor's arguments
+                meta["order"] = order
+            if meta["style"] == "stepwise" and r % 2 == 1:
+                keys = ["y%d" % i for i in range(len(liks))] + (["z"] if meta.get("const") else [])
+                rng.shuffle(keys)
+                meta["cond_order"] = keys
+            out.append(case_sum(meta, st))
     return out
 
 
 def case_sum(meta, st):
-    obj, dim = build(meta)
+    obj, comps = build_sum(meta)
+    dim = meta["n"]
     x, x1 = fa(meta["x"]), fa(meta["x1"])
-    comps = list(obj.likelihoods) + [obj.prior] if meta["fam"] == "mlp" else [obj.likelihood, obj.prior]
-    o = observe(lambda: obj.gradient(x))
+    # the factors are the ones the harness put in (never the object's own `likelihoods` / `prior` filters)
     po = [observe(lambda c=c: c.gradient(x)) for c in comps]
+    def flogd(c):
+        if type(c).__name__ == "EvaluatedDensity":       # a constant: logd() takes no argument
+            return lambda z: float(np.ravel(c.logd())[0])
+        return logd_of(c)
+    pl = [flogd(c)(x) for c in comps]
+    o = observe(lambda: obj.gradient(x))
     f = logd_of(obj)
     dtot = f(x1) - f(x)
-    dparts = [logd_of(c)(x1) - logd_of(c)(x) for c in comps]
-    d, sig = verdict_case(meta, o, obj, x, dim)
-    if o[0] == "vec" and all(p[0] == "vec" for p in po):
-        expr = "check_sum %s %s && check_sum_logd %s %s" % (clist([cqvec(p[1]) for p in po]), cqvec(o[1]), cqvec(dparts), cq(dtot))
-    else:
-        # a component refuses / misbehaves: the sum must not be a vector either
-        expr = "match %s with ObsVec _ => false | _ => true end" % cobs(o)
+    dparts = [flogd(c)(x1) - v for c, v in zip(comps, pl)]
+    d, sig = verdict_case(meta, o, obj, x, dim, fd=bool(meta.get("fd_parts")))
+    # keep-alive: evaluating the posterior must not have changed any factor, and a second call must agree with the first
+    po2 = [observe(lambda c=c: c.gradient(x)) for c in comps]
+    o2 = observe(lambda: obj.gradient(x))
+    if d is None and (po2 != po or o2 != o):
+        d, sig = "gradient() is not reproducible: a second evaluation of the posterior / of its factors differs from the first", "C03|%s|not-reproducible" % meta["cellname"]
+    # the posterior's own factors (if it exposes them) must be as many as were put in, plus the evaluated density of z
+    nfac = len(getattr(obj, "_densities", comps))
+    guard = True
+    if meta["fam"] == "post" and type(obj).__name__ == "Posterior":
+        import cuqi
+        guard = type(obj.geometry) in cuqi.geometry._get_identity_geometries() or hasattr(obj.geometry, "gradient")
+    extra_eval = bool(meta.get("const")) and type(obj).__name__ == "MultipleLikelihoodPosterior"
+    parts_obs = po + ([("raised", "EvaluatedDensity")] if extra_eval else [])
+    expr = "check_sum_obs %s %s %s && check_sum_logd %s %s && Nat.eqb %s %s" % (
+        cbool(guard), clist([cobs(p) for p in parts_obs]), cobs(o), cqvec(dparts), cq(dtot),
+        cnat(nfac), cnat(len(comps) + (1 if extra_eval else 0)) if hasattr(obj, "_densities") else cnat(nfac))
     return Case(expr=expr, meta=meta, cell=meta["cellname"], kind="EXACT", impl_fail=d, signature=sig)
 
 
@@ -1158,6 +1349,56 @@ def gen_sep(ctx, st):
     return out
 
 
+OOS_SIDES = {"Beta": ["low", "high", "at-low", "at-high"], "InvGamma": ["low", "at-low"], "MHN": ["low", "at-low"],
+             "LognormalDiag": ["low", "at-low"], "Uniform": ["low", "high"], "Cauchy": ["scale"]}
+
+
+def gen_oos(ctx, st):
+    """points with exactly ONE coordinate outside the support (below / above / on the boundary): NaN expected"""
+    rng = ctx.rng
+    out = []
+    for sf, sides in OOS_SIDES.items():
+        for side in sides:
+            for vec in (False, True):
+                for r in range(ctx.n(1, 4)):
+                    n = rng.randint(2, 4)
+                    meta = sep_meta(rng, sf, n, vec)
+                    a, b, c = sep_parlists(meta)
+                    x = uv(meta["x"])
+                    i = rng.randrange(n)
+                    if side == "scale":
+                        if not vec:
+                            meta["pars"][1] = ["s", P_(-F(meta["pars"][1][1]))]
+                        else:
+                            sc = uv(meta["pars"][1][1]); sc[i] = -sc[i] if r % 2 else Fraction(0); meta["pars"][1] = ["v", pv(sc)]
+                    else:
+                        lo = {"Beta": Fraction(0), "InvGamma": b[i], "MHN": Fraction(0), "LognormalDiag": Fraction(0), "Uniform": a[i]}[sf]
+                        hi = {"Beta": Fraction(1), "Uniform": b[i]}.get(sf)
+                        x[i] = {"low": lo - Fraction(1, 4), "at-low": lo, "high": (hi or 0) + Fraction(1, 4), "at-high": hi}[side]
+                    meta["x"] = pv(x)
+                    meta["oos"] = side
+                    meta["cellname"] = "oos/%s/%s/%s-params" % (sf, side, "vector" if vec else "scalar")
+                    out.append(case_oos(meta, st))
+    return out
+
+
+def case_oos(meta, st):
+    obj, dim = build(meta)
+    x = fa(meta["x"])
+    o = observe(lambda: obj.gradient(x))
+    d = None
+    if o[0] not in ("nan", "raised"):
+        d = "%s: a finite %s is returned at %s, outside the support (%s)" % (meta["sfam"], o[0], x.tolist(), meta["oos"])
+    elif o[0] == "nan":
+        # the object's own logd must not be a finite number there either
+        v = logd_of(obj)(x)
+        if math.isfinite(v):
+            d = "%s: gradient is NaN at %s where logd = %r is finite" % (meta["sfam"], x.tolist(), v)
+    expr = "match %s with ObsNaN => true | _ => false end" % cobs(o)
+    return Case(expr=expr, meta=meta, cell=meta["cellname"], kind="DECISION", impl_fail=d,
+                signature=("C03|%s|%s" % (meta["cellname"], o[0])) if d else "")
+
+
 def sep_coq_pars(meta, obj):
     """parameter lists handed to the model.  MHN: the values the object's own accessors return (the model takes the
     family's three parameters as the object exposes them; whether beta/gamma are the constructor's belongs to C04)."""
@@ -1213,7 +1454,7 @@ def gen_cmrf(ctx, st):
             for lk in ("s", "v"):
                 for r in range(ctx.n(1, 5) if pd == 2 else ctx.n(2, 8)):
                     if pd == 1:
-                        n = rng.randint(3, 5)
+                        n = 2 if r == 0 else rng.randint(3, 5)
                         N, geo2 = n, None
                     else:
                         N, n, geo2 = 2, 4, rng.choice(["image2d", "cont2d"])
@@ -1431,6 +1672,66 @@ def case_gallery(meta):
     return Case(expr="true", meta=meta, cell=meta["cellname"], kind="DECISION", trivial=False, impl_fail=d, signature=sig)
 
 
+# ---- dimensions above config.MIN_DIM_SPARSE (sparse storage / eigen-decomposition paths): oracle only --------------
+LARGE_KINDS = ["cov-dense", "prec-dense", "sqrtcov-dense", "sqrtprec-dense", "cov-vector", "prec-vector", "sqrtprec-sparse-band",
+               "cov-sparse-diag", "prec-scalar", "gmrf-1d", "gmrf-2d", "lik-cov-dense", "lik-sqrtprec-vector"]
+
+
+def build_large(meta):
+    import scipy.sparse as sp
+    from cuqi.distribution import Gaussian, GMRF
+    from cuqi.model import LinearModel
+    import io, contextlib
+    rng = np.random.RandomState(meta["seed"])
+    n = meta["n"]
+    kind = meta["kind"]
+    mean = rng.randint(-4, 5, n) / 2.0
+    band = np.diag(1.0 + rng.randint(1, 4, n)) + np.diag(rng.randint(-1, 2, n - 1) / 2.0, -1)     # lower bidiagonal, non-singular
+    spd = band @ band.T
+    vec = 2.0 ** rng.randint(-2, 3, n)
+    if kind.startswith("gmrf"):
+        geom = n if kind == "gmrf-1d" else (9, 9)
+        with contextlib.redirect_stdout(io.StringIO()):
+            return GMRF(mean[:81] if kind == "gmrf-2d" else mean, 0.5, bc_type=meta["bc"], order=meta["order"], geometry=geom), (81 if kind == "gmrf-2d" else n)
+    if kind.startswith("lik"):
+        B = rng.randint(-2, 3, (n, 3)).astype(float)
+        par = {"cov": spd} if kind == "lik-cov-dense" else {"sqrtprec": vec}
+        return Gaussian(mean=LinearModel(B), **par).to_likelihood(mean), 3
+    form, rest = kind.split("-", 1)
+    val = {"dense": spd if form in ("cov", "prec") else band, "vector": vec, "sparse-band": sp.csc_matrix(band),
+           "sparse-diag": sp.diags(vec), "scalar": 0.5}[rest]
+    return Gaussian(mean, **{form: val}), n
+
+
+def gen_large(ctx, st):
+    rng = ctx.rng
+    out = []
+    for kind in LARGE_KINDS:
+        for r in range(ctx.n(1, 3)):
+            meta = {"fam": "large", "kind": kind, "n": rng.choice([76, 80, 90]) if not kind == "gmrf-2d" else 81, "seed": rng.randint(0, 10 ** 6),
+                    "bc": rng.choice(["zero", "periodic", "neumann"]), "order": rng.choice([0, 1]) if True else 2,
+                    "cellname": "large/" + kind}
+            out.append(case_large(meta))
+    return out
+
+
+def case_large(meta):
+    obj, dim = build_large(meta)
+    rng = np.random.RandomState(meta["seed"] + 1)
+    x = rng.randint(-8, 9, dim) / 4.0
+    o = observe(lambda: obj.gradient(x))
+    try:
+        logd_of(obj)(x)
+    except NotImplementedError:
+        # sparse full matrices without cholmod: the object refuses to evaluate its own (normalised) logd -- nothing to differentiate
+        return Case(expr="true", meta=meta, cell=meta["cellname"] + "/logd-refused", kind="DECISION", trivial=True)
+    d, sig = verdict_case(meta, o, obj, x, dim)
+    if d is None and o[0] != "vec":
+        d, sig = "no gradient vector for a dimension above MIN_DIM_SPARSE although logd is defined: %r" % (o[:1],), "C03|%s|%s" % (meta["cellname"], o[0])
+    # too large for Coq literals: the oracle (derivative of the same object's logd) alone speaks
+    return Case(expr="true", meta=meta, cell=meta["cellname"], kind="DECISION", impl_fail=d, signature=sig)
+
+
 # ------------------------------------------------------------------------------------------------
 # protocol hooks
 # ------------------------------------------------------------------------------------------------
@@ -1446,6 +1747,8 @@ def _rerun(meta):
         return [case_lik(meta, st)]
     if fam in ("post", "mlp"):
         return [case_sum(meta, st)] if not meta.get("fd") else [case_fd(meta, st)]
+    if fam == "sep" and meta.get("oos"):
+        return [case_oos(meta, st)]
     if fam == "sep":
         return case_sep(meta, st) if not meta.get("fd") else [case_fd(meta, st)]
     if fam == "cmrf":
@@ -1457,6 +1760,8 @@ def _rerun(meta):
         return [case_lognormal_full(meta, st)]
     if fam == "gallery":
         return [case_gallery(meta)]
+    if fam == "large":
+        return [case_large(meta)]
     return []
 
 
